@@ -9,6 +9,7 @@ package main
 // else was rendered before.
 
 import (
+	"bytes"
 	"crypto/sha1"
 	"fmt"
 	"os"
@@ -16,6 +17,8 @@ import (
 	"path/filepath"
 	"strconv"
 	"strings"
+	"time"
+	_ "time/tzdata" // zone names resolve whatever the host has installed
 
 	"github.com/semihalev/twig"
 
@@ -57,6 +60,32 @@ func againCorpus(thorough bool) []tcase {
 		cs = append(cs, tcase{Group: "again-extra", Tpl: tp, Extra: extra, Ctx: "acct", mk: acct})
 		cs = append(cs, tcase{Group: "again-extra", Tpl: tp, Extra: extra, Ctx: "empty", mk: empty})
 	}
+	// fully specified instants: the process's time zone must not matter
+	dates := func() map[string]interface{} {
+		return map[string]interface{}{
+			"u":  time.Date(2024, 3, 5, 22, 30, 15, 0, time.UTC),
+			"z":  time.Date(2024, 3, 5, 22, 30, 15, 0, time.FixedZone("X", 5*3600+1800)),
+			"s":  "2024-03-05 22:30:15",
+			"sz": "2024-03-05T22:30:15+02:00",
+			"n":  1709677815,
+		}
+	}
+	for _, v := range []string{"u", "z", "s", "sz", "n"} {
+		for _, f := range []string{"Y-m-d H:i", "c", "U", "D, d M Y H:i:s O", "e T P", "jS F y g:i a"} {
+			cs = append(cs, tcase{Group: "again-date", Tpl: "{{ " + v + "|date('" + f + "') }}", Ctx: "dates", mk: dates})
+		}
+	}
+	// pointers to scalars printed where the engine writes into a buffer of its own
+	ptrs := func() map[string]interface{} {
+		n, st, f, b := 7, "str", 2.5, true
+		return map[string]interface{}{"pi": &n, "ps": &st, "pf": &f, "pb": &b}
+	}
+	extra["playout"] = "L[{% block b %}{{ pi }}{{ ps }}{% endblock %}]"
+	for _, tp := range []string{"{{ pi }}{{ ps }}{{ pf }}{{ pb }}", "{% apply upper %}{{ pi }}|{{ ps }}|{{ pf }}{% endapply %}", "{% extends 'playout' %}{% block b %}<{{ parent() }}>{{ pf }}{% endblock %}",
+		"{% for i in [1, 2] %}{{ pi }}{% endfor %}", "{% set q %}{{ ps }}{{ pi }}{% endset %}{{ q }}", "{% macro m(p) %}({{ p }}){% endmacro %}{{ m(pi) }}{{ _self.m(ps) }}", "{% include 'leafp' %}"} {
+		cs = append(cs, tcase{Group: "again-extra", Tpl: tp, Extra: extra, Ctx: "ptrs", mk: ptrs})
+	}
+	extra["leafp"] = "P({{ pi }}{{ ps }})"
 	for _, tp := range []string{"[{{ user }}][{{ a }}][{{ v }}]", "{% include 'leafsb' %}", "{% if user is defined %}D{% else %}U{% endif %}"} {
 		cs = append(cs, tcase{Group: "again-extra", Tpl: tp, Extra: extra, Ctx: "empty", mk: empty})
 	}
@@ -95,9 +124,30 @@ func renderPlain(e *twig.Engine, name string, ctx map[string]interface{}) (out s
 	return o
 }
 
-// againChild: C03_AGAIN="<tier>:<k>:<orders>" — prints "<flavour> <idx> <rep> <sha1>" lines
+func renderToBuf(e *twig.Engine, name string, ctx map[string]interface{}) (out string) {
+	defer func() {
+		if r := recover(); r != nil {
+			out = fmt.Sprintf("PANIC %v", r)
+		}
+	}()
+	var b bytes.Buffer
+	if err := e.RenderTo(&b, name, ctx); err != nil {
+		return "ERR"
+	}
+	return b.String()
+}
+
+// againChild: C03_AGAIN="<tier>:<k>:<orders>[:<zone>]" — prints "<flavour> <idx> <rep> <sha1>" lines
 func againChild(spec string) {
 	parts := strings.Split(spec, ":")
+	if len(parts) > 3 && parts[3] != "" {
+		if loc, err := time.LoadLocation(parts[3]); err == nil {
+			time.Local = loc
+		} else {
+			fmt.Println("ZONE-UNAVAILABLE", parts[3])
+			return
+		}
+	}
 	k, _ := strconv.Atoi(parts[1])
 	orders, _ := strconv.Atoi(parts[2])
 	cs := againCorpus(parts[0] == "thorough")
@@ -112,6 +162,8 @@ func againChild(spec string) {
 		for rep := 0; rep < 2; rep++ {
 			fmt.Printf("fresh %d %d %x\n", i, rep, sha1.Sum([]byte(renderPlain(e, "main", c.mk()))))
 		}
+		// the same through RenderTo into a caller's buffer: must be the same bytes as Render
+		fmt.Printf("to %d 0 %x\n", i, sha1.Sum([]byte(renderToBuf(e, "main", c.mk()))))
 	}
 	shared := twig.New()
 	for _, c := range cs {
@@ -129,10 +181,10 @@ func againChild(spec string) {
 	}
 }
 
-func againRun(tier string, k, orders int) (map[string]string, error) {
+func againRun(tier string, k, orders int, zone string) (map[string]string, error) {
 	var file string
 	if dir := vlib.Scratch(); dir != "" {
-		file = filepath.Join(dir, fmt.Sprintf("c03-again-%s-%d", tier, k))
+		file = filepath.Join(dir, fmt.Sprintf("c03-again-%s-%d-%s", tier, k, strings.ReplaceAll(zone, "/", "_")))
 	}
 	var out []byte
 	if file != "" {
@@ -142,7 +194,7 @@ func againRun(tier string, k, orders int) (map[string]string, error) {
 	}
 	if out == nil {
 		cmd := exec.Command(os.Args[0])
-		cmd.Env = append(os.Environ(), fmt.Sprintf("C03_AGAIN=%s:%d:%d", tier, k, orders))
+		cmd.Env = append(os.Environ(), fmt.Sprintf("C03_AGAIN=%s:%d:%d:%s", tier, k, orders, zone))
 		b, err := cmd.Output()
 		if err != nil {
 			return nil, fmt.Errorf("child process for order %d failed: %v", k, err)
@@ -171,36 +223,57 @@ func againCases(t *vlib.T) {
 		orders = 12
 	}
 	cs := againCorpus(t.Thorough())
+	type variant struct {
+		name string
+		k    int
+		zone string
+	}
+	var vs []variant
 	for k := 1; k < orders; k++ {
-		k := k
-		t.Case(fmt.Sprintf("again/order%d-of-%d", k, orders), func() *vlib.Outcome {
+		vs = append(vs, variant{fmt.Sprintf("order%d-of-%d", k, orders), k, ""})
+	}
+	// the forward order in processes whose local time zone is not UTC
+	for _, z := range []string{"Asia/Tokyo", "America/Los_Angeles", "Asia/Kolkata", "Pacific/Chatham"} {
+		vs = append(vs, variant{"zone-" + strings.ReplaceAll(z, "/", "_"), 0, z})
+	}
+	for _, v := range vs {
+		v := v
+		t.Case("again/"+v.name, func() *vlib.Outcome {
 			o := &vlib.Outcome{Nontrivial: true, Class: "again", Counters: map[string]int64{}}
-			base, err := againRun(t.Tier(), 0, orders)
+			base, err := againRun(t.Tier(), 0, orders, "")
 			if err != nil {
 				o.Violation = err.Error()
 				return o
 			}
-			got, err := againRun(t.Tier(), k, orders)
+			got, err := againRun(t.Tier(), v.k, orders, v.zone)
 			if err != nil {
 				o.Violation = err.Error()
 				return o
 			}
 			o.Counters["executions"] += int64(len(got))
 			o.Counters["again_renders_compared"] += int64(len(got))
-			if len(got) != len(base) || len(got) != 4*len(cs) {
-				o.Violation = fmt.Sprintf("order %d produced %d results, the forward order %d, expected %d", k, len(got), len(base), 4*len(cs))
+			if len(got) != len(base) || len(got) != 5*len(cs) {
+				o.Violation = fmt.Sprintf("variant %s produced %d results, the forward order %d, expected %d", v.name, len(got), len(base), 5*len(cs))
 				return o
 			}
+			how := fmt.Sprintf("a process that renders the corpus in order %d produces other bytes than one that renders it in forward order — the output depends on what was rendered before", v.k)
+			if v.zone != "" {
+				how = fmt.Sprintf("a process whose local time zone is %s produces other bytes than one whose local time zone is UTC", v.zone)
+			}
 			for i, c := range cs {
-				for _, fl := range []string{"fresh", "shared"} {
-					for rep := 0; rep < 2; rep++ {
-						key := fmt.Sprintf("%s %d %d", fl, i, rep)
-						if got[key] != base[key] || got[key] != base[fmt.Sprintf("%s %d 0", fl, i)] {
-							o.Violation = fmt.Sprintf("template %q context %s (%s engine, render #%d): a process that renders the corpus in order %d produces other bytes than one that renders it in forward order — the output depends on what was rendered before", c.Tpl, c.Ctx, fl, rep+1, k)
-							o.Detail = map[string]interface{}{"template": c.Tpl, "context": c.Ctx, "order": k, "orders": orders, "engine": fl}
-							return o
-						}
+				first := base[fmt.Sprintf("fresh %d 0", i)]
+				for _, key := range []string{fmt.Sprintf("fresh %d 0", i), fmt.Sprintf("fresh %d 1", i), fmt.Sprintf("shared %d 0", i), fmt.Sprintf("shared %d 1", i)} {
+					if got[key] != base[key] || got[key] != base[key[:len(key)-1]+"0"] {
+						o.Violation = fmt.Sprintf("template %q context %s (%s): %s", c.Tpl, c.Ctx, key, how)
+						o.Detail = map[string]interface{}{"template": c.Tpl, "context": c.Ctx, "variant": v.name}
+						return o
 					}
+				}
+				// RenderTo into a caller's buffer must write the bytes Render returns
+				if to := got[fmt.Sprintf("to %d 0", i)]; to != first {
+					o.Violation = fmt.Sprintf("template %q context %s: RenderTo into a bytes.Buffer writes other bytes than Render returns (variant %s)", c.Tpl, c.Ctx, v.name)
+					o.Detail = map[string]interface{}{"template": c.Tpl, "context": c.Ctx, "variant": v.name}
+					return o
 				}
 			}
 			return o
